@@ -2,7 +2,7 @@
    the 200 ms during which output is dropped, the upload command, the 3 s bookkeeping) and what
    is left behind when it is called off or runs to its end; typed input while a transfer owns
    the streams; a redisplayed trigger (composition with the detector model of C06). *)
-From Trzsz Require Import Base.Bytes Gen.Consts Model.Filter Proofs.Filter.
+From Trzsz Require Import Base.Bytes Gen.Consts Model.Filter Model.FilterDet Proofs.Filter.
 From Trzsz Require Model.Detector Proofs.Detector.
 Local Open Scope N_scope.
 
@@ -99,14 +99,7 @@ Section FilterDragProofs.
 
   (* what is shown of the chunks of the window, and how many transfers they start: exactly the
      chunks on which the detector fires, as rewritten by the detector *)
-  Fixpoint window_shown (d : dstate) (cs : list chunk) : list (list N) * nat :=
-    match cs with
-    | [] => ([], O)
-    | c :: cs' =>
-      let '((b, t), d') := detect d c in
-      let (sh, n) := window_shown d' cs' in
-      match t with Some _ => (b :: sh, S n) | None => (sh, n) end
-    end.
+  Notation window_shown := (FilterDet.window_shown dstate trigger detect).
 
   Definition in_window (s : state) : Prop :=
     transfer s = false /\ zmodem s = None /\ interrupting s = true.
@@ -228,12 +221,6 @@ End FilterDragProofs.
 (* tunnel = false.                                                                           *)
 
 Import Trzsz.Model.Detector.
-
-Definition c05_client_det (m : idmap) : det := {| d_relay := false; d_tmux := false; d_map := m |}.
-
-Definition c05_client_detect (winenv : bool) (m : idmap) (buf : list N)
-  : (list N * option Trzsz.Model.Detector.trigger) * idmap :=
-  let '(out, t, d') := Trzsz.Model.Detector.detect winenv (c05_client_det m) false buf in ((out, t), d_map d').
 
 (* C06_silent, in the shape the filter theorems need *)
 Lemma c05_client_detect_silent : forall winenv m c c' m',
